@@ -203,12 +203,21 @@ func parseContractComments(cs *ContractSet, fset *token.FileSet, pkgPath string,
 						return fmt.Errorf("%s:%d: bad loop ordinal", fname, line)
 					}
 					kind := fields[2]
+					rawKind := kind
+					if mm := tagRe.FindStringSubmatch(kind); mm != nil {
+						kind = mm[1]
+						if mm[2] != "" {
+							for _, t := range strings.Split(mm[2], ",") {
+								ctags = append(ctags, strings.TrimSpace(t))
+							}
+						}
+					}
 					if kind != "invariant" && kind != "decreases" {
 						return fmt.Errorf("%s:%d: bad loop clause kind %s", fname, line, kind)
 					}
 					r := strings.TrimSpace(rest)
 					r = strings.TrimSpace(strings.TrimPrefix(r, fields[1]))
-					r = strings.TrimSpace(strings.TrimPrefix(r, kind))
+					r = strings.TrimSpace(strings.TrimPrefix(r, rawKind))
 					cl := &Clause{Kind: kind, Loop: n, Tags: ctags, Text: r, File: fname, Line: line}
 					cl.Label, cl.Text = splitLabel(cl.Text)
 					cur.Clauses = append(cur.Clauses, cl)
